@@ -242,7 +242,7 @@ def run(ctx):
             else:
                 ctx.notes.append("rejected trace not reproduced in 3 re-runs (dropped): %s" % json.dumps(describe(tr, prefix))[:400])
     return vlib.finish(ctx, LEVEL, RULE, ASSUME,
-                       technique="TLA+ spec PowMine: TLC safety+liveness model checking; TLC behaviours replayed as schedules through blocking hooks; trace validation with inferred interleavings; race detector")
+                       technique="TLA+ specs PowMine / PowMineMulti: TLC safety+liveness model checking (flawed variants as controls), Apalache inductive invariant (PowMineInd); TLC behaviours replayed as schedules through blocking hooks; trace validation with inferred interleavings (driver runs and the repository's own tests); race detector")
 
 
 def replay(ctx, path):
